@@ -265,7 +265,7 @@ func Of(kind string, tier int) []aa.Rule {
 	case "rlimit":
 		for _, k := range []string{"nofile", "nice", "cpu", "as"} {
 			for _, op := range []string{"<=", "<"} {
-				for _, v := range []string{"1024", "512", "9", "10", "-10", "infinity", "1K", "2M"} {
+				for _, v := range []string{"1024", "512", "9", "10", "-10", "infinity", "1K", "2M", "010", "-010"} {
 					add(&aa.Rlimit{Key: k, Op: op, Value: v})
 				}
 			}
